@@ -5,3 +5,8 @@ package collect
 // VerifStressHashSeed exposes the wyhash seed of stress-relief sampling (C10 harness).
 // Unexported names touched: hashSeed.
 func VerifStressHashSeed() uint64 { return hashSeed }
+
+// VerifDetermNoLoop makes Start() skip the periodic Recalc/publish goroutine (the package's own
+// test-only switch), so the C10 harness calls Recalc itself.  Unexported names touched:
+// StressRelief.disableStressLevelReport.
+func (s *StressRelief) VerifDetermNoLoop() { s.disableStressLevelReport = true }
